@@ -75,3 +75,20 @@ pub fn name<'a>(node: &'a Element<'a>) -> (r: &'a str)
 pub fn is_leaf(element: Element) -> (r: bool)
     ensures r == spec_is_leaf(element)
 { unimplemented!() }
+
+impl<'a> Element<'a> {
+    /// sxd_document: `attribute_value(&self, name) -> Option<&'a str>`
+    #[verifier::external_body]
+    pub fn attribute_value(&self, name: &str) -> (r: Option<&'a str>)
+        ensures r.is_some() <==> spec_attr(*self, name@).is_some(),
+                r.is_some() ==> r.unwrap()@ == spec_attr(*self, name@).unwrap(),
+    { unimplemented!() }
+}
+
+/// canonicalize.rs `as_element`: panics (by design) on a non-element child -> precondition
+pub fn as_element<'a>(child: ChildOfElement<'a>) -> (r: Element<'a>)
+    requires child is Element
+    ensures r == child->Element_0
+{
+    match child { ChildOfElement::Element(e) => e, _ => vpanic() }
+}
